@@ -36,7 +36,9 @@ func tokenNames(p *pkgInfo) []string {
 			}
 			// cross-check with the type checker's value
 			if obj := p.info.Defs[vs.Names[0]]; obj != nil {
-				if c, ok := obj.(interface{ Val() interface{ String() string } }); ok {
+				if c, ok := obj.(interface {
+					Val() interface{ String() string }
+				}); ok {
 					_ = c
 				}
 			}
@@ -269,3 +271,5 @@ func genToken(p *pkgInfo) *leanFile {
 	_ = strconv.Itoa
 	return f
 }
+
+func init() { registerGen("Token", genToken) }
